@@ -3,7 +3,7 @@
     Handlers.v, and the C04 / C09 / C15 predicates evaluated on the OBSERVED
     replies, backend calls and fid tables.  Evaluated by vm_compute. *)
 From Coq Require Import NArith ZArith List String Ascii Bool.
-From P9V Require Import Base.Str gen.ConstGen Server.State Server.Msg Server.SessionSpec Server.Handlers.
+From P9V Require Import Base.Str gen.ConstGen Server.State Server.Msg Server.SessionSpec Server.Handlers Server.OpenPar.
 Import ListNotations.
 Open Scope N_scope.
 
@@ -17,7 +17,10 @@ Record ostep := mkStep {
   os_reduced : bool            (* a panic hit the map-order dependent tail of a rename *)
 }.
 
-Inductive srvcase := CHist (steps : list ostep).
+(** [CPar]: two Tlopen (flags [fa], [fb]) IN FLIGHT TOGETHER on one unopened fid of a regular file (the second
+    sent while the first is inside the gated backend Open): their replies and the answers File.Open gave, in
+    call order.  Judged by the interleaving model Server/OpenPar.v. *)
+Inductive srvcase := CHist (steps : list ostep) | CPar (fa fb : N) (ra rb : reply) (opens : list answer).
 
 Definition list_eqb {A} (eqb : A -> A -> bool) : list A -> list A -> bool :=
   fix go a b := match a, b with
@@ -250,6 +253,15 @@ Fixpoint next_handle_after (calls : list (bcall * answer)) (nh : N) : N :=
   | (c, a) :: r => next_handle_after r (if creates c a then nh + 1 else nh)
   end.
 
+(** [c09_step] needs no model state: after the first model mismatch the C09 predicate keeps judging the rest of the
+    observed history (a failing input is then reported concretely instead of only as a broken correspondence) *)
+Fixpoint c09_only (steps : list ostep) (i : nat) (nh : N) (modes : list (N * N)) : option nat :=
+  match steps with
+  | [] => None
+  | o :: rest => let '(p09, nh9, modes') := c09_step o nh modes in
+                 if p09 then c09_only rest (S i) nh9 modes' else Some i
+  end.
+
 Fixpoint run_hist (steps : list ostep) (i : nat) (s : sstate) (nh : N) (modes : list (N * N)) (v : verdict) : verdict :=
   match steps with
   | [] => v
@@ -262,11 +274,17 @@ Fixpoint run_hist (steps : list ostep) (i : nat) (s : sstate) (nh : N) (modes : 
                           (first_some (vd_c04 v) (if p04 then None else Some i))
                           (first_some (vd_c09 v) (if p09 then None else Some i))
                           (first_some (vd_c15 v) (if p15 then None else Some i)) in
-      if ag then run_hist rest (S i) s' nh9 modes' v' else v'
+      if ag then run_hist rest (S i) s' nh9 modes' v'
+      else mkVerdict (vd_mismatch v') (vd_c04 v') (first_some (vd_c09 v') (c09_only rest (S i) nh9 modes')) (vd_c15 v')
   end.
 
 Definition judge (c : srvcase) : verdict :=
-  match c with CHist steps => run_hist steps 0%nat init_state 1 [] (mkVerdict None None None None) end.
+  match c with
+  | CHist steps => run_hist steps 0%nat init_state 1 [] (mkVerdict None None None None)
+  | CPar fa fb ra rb opens =>
+      mkVerdict (if par_agrees fa fb ra rb opens then None else Some 0%nat)
+                (if par_ok ra rb opens then None else Some 0%nat) None None
+  end.
 
 Definition agrees (c : srvcase) : bool := match vd_mismatch (judge c) with None => true | Some _ => false end.
 
